@@ -83,7 +83,7 @@ def gen_cases(tier, rng):
             cases.append("a%d 1 S:%s S:%s S:x0c" % (i, pat(rng, s - H), pat(rng, max(l, 0))))
             i += 1
     # (b) random session splits
-    nb = 400 if tier == "quick" else 20000
+    nb = 400 if tier == "quick" else 3000
     for j in range(nb):
         ops = []
         for _ in range(rng.randrange(1, 5)):
@@ -92,13 +92,13 @@ def gen_cases(tier, rng):
             ops.append("S:" + ",".join(recs))
         cases.append("b%d 1 %s" % (j, " ".join(ops)))
     # (c) truncation: every point of small files, sampled points of multi-block files
-    nc = 6 if tier == "quick" else 60
+    nc = 6 if tier == "quick" else 40
     for j in range(nc):
         recs = [pat(rng, rng.randrange(0, 12)) for _ in range(rng.randrange(1, 6))]
         total = sum(H + int(r[1:].split(".")[0]) for r in recs)
         for n in range(0, total + 1):
             cases.append("c%d_%d 1 S:%s T:%d" % (j, n, ",".join(recs), n))
-    nc2 = 40 if tier == "quick" else 1500
+    nc2 = 40 if tier == "quick" else 300
     for j in range(nc2):
         lens = [rec_len(rng, B, H) for _ in range(rng.randrange(1, 4))] + [rng.randrange(0, 20)]
         recs = [pat(rng, l) for l in lens]
@@ -111,7 +111,7 @@ def gen_cases(tier, rng):
         for n in sorted(pts):
             cases.append("d%d_%d 1 S:%s T:%d" % (j, n, ",".join(recs), n))
     # (d) writer interrupted between two fragments, later writer appends
-    nd = 60 if tier == "quick" else 3000
+    nd = 60 if tier == "quick" else 500
     for j in range(nd):
         pre = [pat(rng, rng.randrange(0, 50)) for _ in range(rng.randrange(0, 3))]
         boff = sum(H + int(r[1:].split(".")[0]) for r in pre) % B
